@@ -383,7 +383,9 @@ Proof.
     pose proof (tv_raft_set_commit_index (o_shutdown_on_remove opt) (commit_log s i) i) as R.
     destruct (raft_set_commit_index _ _ _) as [s2 committed]. cbn [fst] in R.
     repeat (first [ match goal with H : check_config_actions opt f _ _ _ = Done _ |- _ => apply I3 in H end | inv1 ]);
-      tv_norm; congruence.
+      tv_norm;
+      try (match goal with E : fst ?w = _ |- tv (fst ?w) = _ => rewrite E end; tv_norm);
+      congruence.
 Qed.
 
 Lemma tv_store_entry opt f s nes w : store_entry opt f s nes = Done w -> tv (fst w) = tv s.
